@@ -36,7 +36,8 @@ PRIMS = ['allocate_string', 'format_error', 'error', 'deriv_error', 'check_deriv
          'eval_error', 'check_args', 'check_result', 'check_const_arg', 'check_int_arg', 'check_uint_arg',
          'check_zero_func_args', 'check_bessel_args', 'check_coupling_args']
 # bindings whose formulas are transcribed by hand into lean/MpVerif/C16/Deriv.lean (HasDerivAt theorems)
-TRANSCRIBED = ['amplgsl_log1p', 'amplgsl_expm1', 'amplgsl_hypot', 'amplgsl_hypot3']
+TRANSCRIBED = ['amplgsl_log1p', 'amplgsl_expm1', 'amplgsl_hypot', 'amplgsl_hypot3', 'amplgsl_sf_log', 'amplgsl_sf_log_abs',
+               'amplgsl_sf_log_1plusx', 'amplgsl_sf_log_1plusx_mx', 'amplgsl_sf_legendre_P2', 'amplgsl_sf_legendre_P3']
 OTHER_AL = {'check_result', 'format_eval_error', 'format_error', 'allocate_string'}
 
 
@@ -397,9 +398,14 @@ class Fn:
                  'check_zero_func_args': 'zeroFunc'}[cal]
             return 'Chk.%s (%s)' % (c, self.index(args[1]))
         if cal == 'check_deriv_arg':
-            return 'Chk.derivArg'
+            self.err('check_deriv_arg called directly from a binding (only check_bessel_args is modelled to call it)', n)
         if cal == 'check_bessel_args':
-            return 'Chk.bessel'
+            fl = strip(args[1])
+            if fl.get('kind') == 'DeclRefExpr' and fl.get('referencedDecl', {}).get('name') == 'DERIV_INT_MIN':
+                return 'Chk.bessel true'
+            if fl.get('kind') == 'IntegerLiteral' and fl['value'] == '0':
+                return 'Chk.bessel false'
+            self.err('flags argument of check_bessel_args is neither 0 nor DERIV_INT_MIN', n)
         if cal == 'check_coupling_args':
             return 'Chk.coupling'
         self.err('unknown checker %s' % cal, n)
@@ -715,12 +721,24 @@ def main(argv):
     ast = clang_ast(repo, work)
     tr = Translator(ast)
     fps = tr.fingerprints()
+    # bodies of the checker / error helpers -> lean/MpVerif/Gen/GslHelpers.lean (proved equal to the hand models in Props.lean)
+    import tr_gsl_helpers
+    helper_problems = []
+    try:
+        htext = tr_gsl_helpers.emit(tr.decls)
+        hout = os.path.join(os.path.dirname(out), 'GslHelpers.lean')
+        if not os.path.exists(hout) or open(hout).read() != htext:
+            open(hout, 'w').write(htext)
+    except Exception as e:      # (tr_gsl_helpers raises tr_gsl.TranslateError, a different class object when this file runs as __main__)
+        if type(e).__name__ != 'TranslateError':
+            raise
+        helper_problems.append('untranslatable:%s' % e)
     if '--print-fingerprints' in argv:
         print(json.dumps(fps, indent=1, sort_keys=True))
         return 0
-    problems = []
+    problems = list(helper_problems)
     expected = json.load(open(os.path.join(HERE, 'gsl_primitives.json')))
-    for p in PRIMS:
+    for p in tr_gsl_helpers.LEAVES:        # only the string-formatting leaves are pinned; the other helpers are translated
         if fps[p] != expected.get(p):
             problems.append('checker-changed:%s' % p)
     for p in TRANSCRIBED:
@@ -757,6 +775,7 @@ def main(argv):
     lines.append('  nargs : Nat')
     lines.append('  random : Bool')
     lines.append('  body : Stmt')
+    lines.append('  deriving DecidableEq')
     lines.append('')
     lines.append('/-- the real-valued functions funcadd_ASL registers, in registration order -/')
     lines.append('def registered : List Entry := [')
